@@ -496,8 +496,9 @@ func main() {
 		if end > len(terms) {
 			end = len(terms)
 		}
-		run.WriteCasesV(fmt.Sprintf("cases_%d.v", s), []string{"Lib.Json", "GqlTyping.Types", "GqlTyping.Parse", "GqlTyping.Typing", "GqlTyping.Introspect", "GqlTyping.GoTypes", "GqlTyping.Check14"}, "",
-			"mismatches_c14", 0, terms[s:end])
+		prelude, shared := gqlty.ShareCoqStrings(terms[s:end])
+		run.WriteCasesV(fmt.Sprintf("cases_%d.v", s), []string{"Lib.Json", "GqlTyping.Types", "GqlTyping.Parse", "GqlTyping.Typing", "GqlTyping.Introspect", "GqlTyping.GoTypes", "GqlTyping.Check14"}, prelude,
+			"mismatches_c14", 0, shared)
 	}
 	run.Finish()
 }
